@@ -71,6 +71,7 @@ class Resolver:
         self.mod = fn.module
         self._stack: list[Def] = []
 
+
     # ---------------------------------------------------------------- names
     def _global(self, name: str) -> Term:
         return ("global", self.program.resolve_global(name, self.mod))
@@ -79,6 +80,7 @@ class Resolver:
         defs = self.cfg.defs_reaching(name, node)
         if not defs:
             return self._global(name)
+
         return phi([self._def_term(d) for d in sorted(defs, key=lambda d: (d.node.id, d.path))])
 
     def _def_term(self, d: Def) -> Term:
@@ -204,6 +206,61 @@ class Resolver:
         if isinstance(e, (ast.Yield, ast.YieldFrom, ast.Await)):
             return ("opaque", type(e).__name__, frozenset(), id(e))
         raise AnalysisError(f"unsupported expression {type(e).__name__} at {self.fn.loc(e)}")
+
+
+class PathResolver(Resolver):
+    """Path-sensitive resolution along one abstract execution (a node sequence from guards.paths).
+
+    A name resolves to the *last* definition executed before the current position on the path, so the
+    term describes exactly what this path computes (loops unrolled once).
+    """
+
+    def __init__(self, program: Program, fn: FunctionInfo, path: list[Node]):
+        super().__init__(program, fn)
+        self.path = path
+        self.snap: list[dict[str, tuple[Def, int]]] = []
+        cur: dict[str, tuple[Def, int]] = {}
+        for d in self.cfg.defs_at(self.cfg.entry):
+            cur[d.name] = (d, -1)
+        for i, n in enumerate(path):
+            self.snap.append(dict(cur))
+            for d in self.cfg.defs_at(n):
+                cur[d.name] = (d, i)
+        self.snap.append(dict(cur))
+        self._i = len(path)
+
+    def at(self, e: ast.AST, i: int) -> Term:
+        """Resolve expression `e` as evaluated at path position i."""
+        old = self._i
+        self._i = i
+        try:
+            return self.term(e, self.path[i] if 0 <= i < len(self.path) else self.cfg.exit)
+        finally:
+            self._i = old
+
+    def index_of(self, node: Node, last: bool = True) -> int:
+        idx = [i for i, n in enumerate(self.path) if n is node]
+        if not idx:
+            raise AnalysisError(f"node at line {node.lineno} is not on the path")
+        return idx[-1] if last else idx[0]
+
+    def name_term(self, name: str, node: Node) -> Term:
+        i = max(0, min(self._i, len(self.snap) - 1))
+        # an augmented assignment / walrus at position i reads the state *before* i
+        hit = self.snap[i].get(name)
+        if hit is None:
+            return self._global(name)
+        d, j = hit
+        if d in self._stack:
+            return ("carried", d.name)
+        self._stack.append(d)
+        old = self._i
+        self._i = j if j >= 0 else 0
+        try:
+            return self._def_term_inner(d)
+        finally:
+            self._i = old
+            self._stack.pop()
 
 
 # ------------------------------------------------------------------- term utilities
